@@ -43,11 +43,25 @@ struct Run {
   //! \param logarithmic: strategy; sm = K[1]; to = K[2]
   static void unit(const bool logarithmic, const int sm, const int to) {
     using namespace tfel::math;
-    Unit u(std::string(logarithmic ? "HK" : "GL") + "_N" + std::to_string(N) + "_sm" + std::to_string(sm) + "_to" +
-           std::to_string(to));
-    Sym F0[9], F1[9], s0[9], s1[9], mp[2], isv[1], esv[1], K[81], rdt = Sym(1), rho = Sym(1);
+    Unit u(std::string(logarithmic ? "HK" : "GL") + "_N" + std::to_string(N) + (B::plane_stress ? "p" : "") + "_sm" +
+           std::to_string(sm) + "_to" + std::to_string(to));
+    Sym F0[9], F1[9], s0[9], s1[9], mp[2], isv0[1], isv1[1], esv[1], K[81], rdt = Sym(1), rho = Sym(1);
     c24::fill(F0, "Fa", T, F0_SH);
     c24::fill(F1, "F", T, F1_SH);
+    // plane stress hypotheses: the axial strain at the beginning of the step is the internal state variable 0
+    // (at the end of the step it is an output of the behaviour); in the Green-Lagrange strategy the axial
+    // component of the deformation gradient handed by the caller is an offset to which sqrt(1 + 2 ezz) is
+    // ADDED by the interface (callers pass 0: it is the constant 0 here); in the Hencky strategy it is
+    // overwritten by exp(ezz) and stays a free symbol
+    isv0[0] = Sym(0);
+    isv1[0] = Sym(0);
+    if constexpr (B::plane_stress) {
+      isv0[0] = c24::in("ezza", 0.04);
+      if (!logarithmic) {
+        F0[B::axial] = Sym(0);
+        F1[B::axial] = Sym(0);
+      }
+    }
     // stress at the beginning of the time step in the requested measure (unused by the elastic law)
     for (int i = 0; i != (sm == 2 ? T : S); ++i) s0[i] = c24::in("sa" + std::to_string(i), 0.1 * (i + 1));
     mp[0] = c24::in("la", 1.5);
@@ -86,7 +100,7 @@ struct Run {
     d.s0.thermodynamic_forces = s0;
     d.s0.mass_density = &rho;
     d.s0.material_properties = mp;
-    d.s0.internal_state_variables = isv;
+    d.s0.internal_state_variables = isv0;
     d.s0.stored_energy = nullptr;
     d.s0.dissipated_energy = nullptr;
     d.s0.external_state_variables = esv;
@@ -94,7 +108,7 @@ struct Run {
     d.s1.thermodynamic_forces = s1;
     d.s1.mass_density = &rho;
     d.s1.material_properties = mp;
-    d.s1.internal_state_variables = isv;
+    d.s1.internal_state_variables = isv1;
     d.s1.stored_energy = nullptr;
     d.s1.dissipated_energy = nullptr;
     d.s1.external_state_variables = esv;
@@ -109,6 +123,7 @@ struct Run {
     }
     // what the behaviour saw: the strain measure at the end of the time step
     for (int i = 0; i != S; ++i) verif::output("e" + std::to_string(i), c55::seen<Sym>().eto1[i]);
+    if constexpr (B::plane_stress) verif::output("ezz", isv1[0]);
     const int ns = (sm == 2) ? T : S;
     for (int i = 0; i != ns; ++i) verif::output("s" + std::to_string(i), s1[i]);
     const int rows = (to == 2) ? T : S;
@@ -129,5 +144,7 @@ int main() {
   Run<ModellingHypothesis::TRIDIMENSIONAL>::all();
   Run<ModellingHypothesis::PLANESTRAIN>::all();
   Run<ModellingHypothesis::AXISYMMETRICALGENERALISEDPLANESTRAIN>::all();
+  Run<ModellingHypothesis::PLANESTRESS>::all();
+  Run<ModellingHypothesis::AXISYMMETRICALGENERALISEDPLANESTRESS>::all();
   return 0;
 }
